@@ -2256,22 +2256,27 @@ class TagNode(_ElementWrappingNode, NodeBase):
         all_filters = default_filters[-1] + filter
         with altered_default_filters():
             candidate = self.first_child
-            if candidate is None:
-                return
+        if candidate is None:
+            return
 
-            next_candidates: list[NodeBase | None] = []
-            while candidate is not None:
-                if all(f(candidate) for f in all_filters):
-                    yield candidate
+        # the default filters are only altered while this generator runs, never
+        # while it is suspended at a yield
+        next_candidates: list[NodeBase | None] = []
+        while candidate is not None:
+            with altered_default_filters():
+                is_match = all(f(candidate) for f in all_filters)
+            if is_match:
+                yield candidate
 
+            with altered_default_filters():
                 if isinstance(candidate, TagNode):
                     next_candidates.append(candidate._fetch_following_sibling())
                     candidate = candidate.first_child
                 else:
                     candidate = candidate._fetch_following_sibling()
 
-                while candidate is None and next_candidates:
-                    candidate = next_candidates.pop()
+            while candidate is None and next_candidates:
+                candidate = next_candidates.pop()
 
     @property
     def last_child(self) -> Optional[NodeBase]:
